@@ -19,6 +19,13 @@ modules), their *current* source is read with inspect, parsed with `ast` and lin
   for / while (+ else)              -> Loop;  break/continue -> Break;  return -> Return
   try/except (handlers for non-DOM exception classes only) -> (body | Skip); (handlers | else)
 
+Lenient mode (second theorem, AtomicLenient.v): a log call in a block that also clears a commit flag
+(`wellformed = False`, `ok = False`, `new['wellformed'] = False`; names ending in ok/wellformed) -> LFail; any other
+assignment to such a flag (`ok = ok and x.wellformed`, `ok, seq, .. = ProdParser().parse(..)`) -> LMayFail;
+`if <flag>:` / `if <flag> and ..:` -> LGuard body (`if not <flag>: A else: B` -> LIf A (LGuard B)); the
+'Unexpected token' error of _parse -> LFail.  A flag that is re-assigned from a call after it may already have
+been cleared is refused (a failure could be lost).
+
 Everything else is REFUSED (fail-closed): the setter is then listed in `refused` and must be hand-transcribed
 in coq/theories/AtomicHand.v.  The tables below are reviewed by hand and are part of the trusted base; the
 correspondence of harness/props/c19.py checks them against executions (changed attributes of the object must be
@@ -140,12 +147,50 @@ def Loop(x):
     return ("Loop", x)
 
 
+def Guard(x):
+    if x == ("Skip",):
+        return x
+    return ("Guard", x)
+
+
+def to_fail(x):
+    """the log call at the end of x (a Check) clears the commit flag: LFail"""
+    if x == ("Check",):
+        return ("Fail",)
+    if x[0] == "Seq" and x[1][-1] == ("Check",):
+        return Seq(*(x[1][:-1] + [("Fail",)]))
+    return x
+
+
+def is_flag_name(name):
+    return name in ("ok", "wellformed") or name.endswith("ok") or name.endswith("wellformed") or name.endswith("Ok")
+
+
+def is_flag_target(t):
+    if isinstance(t, ast.Name):
+        return is_flag_name(t.id)
+    if isinstance(t, ast.Subscript) and isinstance(t.value, ast.Name) and isinstance(t.slice, ast.Constant) \
+            and isinstance(t.slice.value, str) and is_flag_name(t.slice.value):
+        return True
+    return False
+
+
+def flat_targets(targets):
+    out = []
+    for t in targets:
+        if isinstance(t, (ast.Tuple, ast.List)):
+            out += flat_targets(t.elts)
+        else:
+            out.append(t)
+    return out
+
+
 def has(x, kind):
     if x[0] == kind:
         return True
     if x[0] in ("Seq", "If"):
         return any(has(y, kind) for y in x[1])
-    if x[0] == "Loop":
+    if x[0] in ("Loop", "Guard"):
         return has(x[1], kind)
     if x[0] == "Scope":
         return has(x[1], kind) if kind != "Return" else False
@@ -166,8 +211,10 @@ def Scope(x):
 def drop_fallible(x):
     """dead-check table: the same script with Check / CallTemp / CheckRO removed"""
     k = x[0]
-    if k in ("Check", "CallTemp", "CheckRO"):
+    if k in ("Check", "CallTemp", "CheckRO", "Fail", "MayFail"):
         return ("Skip",)
+    if k == "Guard":
+        return Guard(drop_fallible(x[1]))
     if k == "Seq":
         return Seq(*[drop_fallible(y) for y in x[1]])
     if k == "If":
@@ -182,33 +229,35 @@ def drop_fallible(x):
 def coq(x, ind=2):
     k = x[0]
     pad = " " * ind
-    if k in ("Skip", "Check", "CheckRO", "CallTemp", "Return", "Break"):
-        return k
+    if k in ("Skip", "Check", "CheckRO", "CallTemp", "Return", "Break", "Fail", "MayFail"):
+        return "L" + k
     if k == "Write":
-        return 'WriteSelf "%s"' % x[1]
+        return 'LWrite "%s"' % x[1]
+    if k == "Guard":
+        return "LGuard (%s)" % coq(x[1], ind + 1)
     if k == "Seq":
         items = x[1]
         s = coq(items[-1], ind)
         for y in reversed(items[:-1]):
-            s = "Seq (%s)\n%s(%s)" % (coq(y, ind + 1), pad, s)
+            s = "LSeq (%s)\n%s(%s)" % (coq(y, ind + 1), pad, s)
         return s
     if k == "If":
         items = x[1]
         s = coq(items[-1], ind)
         for y in reversed(items[:-1]):
-            s = "If (%s)\n%s(%s)" % (coq(y, ind + 1), pad, s)
+            s = "LIf (%s)\n%s(%s)" % (coq(y, ind + 1), pad, s)
         return s
     if k == "Loop":
-        return "Loop (%s)" % coq(x[1], ind + 1)
+        return "LLoop (%s)" % coq(x[1], ind + 1)
     if k == "Scope":
-        return "Scope (%s)" % coq(x[1], ind + 1)
+        return "LScope (%s)" % coq(x[1], ind + 1)
     raise AssertionError(k)
 
 
 def size(x):
     if x[0] in ("Seq", "If"):
         return 1 + sum(size(y) for y in x[1])
-    if x[0] in ("Loop", "Scope"):
+    if x[0] in ("Loop", "Scope", "Guard"):
         return 1 + size(x[1])
     return 1
 
@@ -303,6 +352,7 @@ class Env:
         self.caught = [] if parent is None else list(parent.caught)  # exception class names caught by enclosing try
         self.notes = parent.notes if parent is not None else []
         self.infallible = parent.infallible if parent is not None else False
+        self.flags_seen = parent.flags_seen if parent is not None else set()
 
 
 class Lin:
@@ -396,6 +446,8 @@ class Lin:
             raise Refused("inlining too deep at %s" % (key,))
         sub = Env(env.cls, defcls or env.defcls, env.setter_key, env)
         sub.caught = []
+        if not bound_funcs and fn_node.name not in env.funcs:
+            sub.flags_seen = set()          # a method has its own local names (closures share them)
         if bound_funcs:
             sub.funcs.update(bound_funcs)
         params = [a.arg for a in fn_node.args.args]
@@ -474,7 +526,7 @@ class Lin:
             arms.append(self.inline(node, dc, env, seqkind))
         d = args.get("default")
         if d is None or (isinstance(d, ast.Constant) and d.value is None):
-            arms.append(("Check",))          # 'Unexpected token' error of _parse
+            arms.append(("Fail",))           # 'Unexpected token' error of _parse (clears wellformed)
         elif isinstance(d, ast.Name) and d.id in env.funcs:
             arms.append(self.inline(env.funcs[d.id][0], env.funcs[d.id][1], env, seqkind))
         else:
@@ -668,9 +720,52 @@ class Lin:
     # -------------------------------------------------- statements
     def block(self, stmts, env):
         out = []
+        clears = any(isinstance(st, ast.Assign) and isinstance(st.value, ast.Constant) and st.value.value is False
+                     and any(is_flag_target(x) for x in flat_targets(st.targets)) for st in stmts)
+        haslog = any(isinstance(st, ast.Expr) and isinstance(st.value, ast.Call)
+                     and (dotted(st.value.func) or "").startswith("self._log.") for st in stmts)
         for i, st in enumerate(stmts):
-            out.append(self.stmt(st, env))
+            if clears and isinstance(st, ast.Expr) and isinstance(st.value, ast.Call) \
+                    and (dotted(st.value.func) or "").startswith("self._log."):
+                out.append(to_fail(self.stmt(st, env)))
+            elif clears and haslog and isinstance(st, ast.Assign) and isinstance(st.value, ast.Constant) \
+                    and st.value.value is False and all(is_flag_target(x) for x in flat_targets(st.targets)):
+                out.append(("Skip",))          # the LFail of this block stands for it
+            else:
+                out.append(self.stmt(st, env))
         return Seq(*out)
+
+    def flag_effect(self, st, env):
+        """assignment statement with a commit flag among its targets: LMayFail / nothing"""
+        flags = [x for x in flat_targets(st.targets) if is_flag_target(x)]
+        if not flags:
+            return ("Skip",)
+        names = set(x.id if isinstance(x, ast.Name) else "%s[%s]" % (x.value.id, x.slice.value) for x in flags)
+        v = st.value
+        seen = env.flags_seen
+        try:
+            if isinstance(v, ast.Constant) and v.value is True:
+                return ("Skip",)
+            if isinstance(v, ast.Constant) and v.value is False:
+                return ("MayFail",)
+            if isinstance(v, ast.Call) or (isinstance(v, ast.Tuple)):
+                # a flag (re)defined by a call: an earlier failure held in the same variable would be lost
+                for n in names:
+                    if n in seen and isinstance(v, ast.Call):
+                        raise Refused("line %d: commit flag %s re-assigned from a call" % (st.lineno, n))
+                return ("MayFail",)
+            # `ok = ok and ...`: every flag named on the left must be an operand on the right (sticky)
+            used = set(n.id for n in ast.walk(v) if isinstance(n, ast.Name)) | set(
+                "%s[%s]" % (n.value.id, n.slice.value) for n in ast.walk(v)
+                if isinstance(n, ast.Subscript) and isinstance(n.value, ast.Name) and isinstance(n.slice, ast.Constant))
+            for n in names:
+                if n in seen and n not in used:
+                    raise Refused("line %d: commit flag %s overwritten without `and`-ing its old value" % (st.lineno, n))
+            for n in used - names:
+                seen.discard(n)            # its failure has been transferred into the flag on the left
+            return ("MayFail",)
+        finally:
+            seen.update(names)
 
     def stmt(self, st, env):
         if isinstance(st, ast.Expr):
@@ -684,7 +779,7 @@ class Lin:
             return ("Skip",)
         if isinstance(st, ast.Assign):
             fx = self.expr(st.value, env)
-            return Seq(fx, *[self.assign_target(t, st.value, env) for t in st.targets])
+            return Seq(fx, *([self.assign_target(t, st.value, env) for t in st.targets] + [self.flag_effect(st, env)]))
         if isinstance(st, ast.AugAssign):
             return Seq(self.expr(st.value, env), self.assign_target(st.target, None, env))
         if isinstance(st, ast.AnnAssign):
@@ -728,6 +823,16 @@ class Lin:
                 return Seq(test, a)
             if fold is False:
                 return Seq(test, b)
+            g = self.guard_kind(st.test)
+            if g == "neg" and any(isinstance(x, ast.Assign) and isinstance(x.value, ast.Constant) and x.value.value is False
+                                  and any(is_flag_target(y) for y in flat_targets(x.targets)) for x in st.body):
+                # `if not wellformed: ok = False`: the failure is transferred to the other flag
+                tn = st.test.operand
+                env.flags_seen.discard(tn.id if isinstance(tn, ast.Name) else "%s[%s]" % (tn.value.id, tn.slice.value))
+            if g == "pos":
+                return Seq(test, If(Guard(a), b))
+            if g == "neg":
+                return Seq(test, If(a, Guard(b)))
             return Seq(test, If(a, b))
         if isinstance(st, (ast.For, ast.While)):
             head = self.expr(st.iter if isinstance(st, ast.For) else st.test, env)
@@ -738,10 +843,15 @@ class Lin:
                 if isinstance(st.iter, (ast.Attribute, ast.Subscript)) and self_root(st.iter) is not None \
                         and isinstance(st.target, ast.Name):
                     env.kinds[st.target.id] = "alias:" + self.backing(env.cls, mangle(env.defcls, self_root(st.iter)[0]))
+            before = dict(env.kinds)
             body = self.block(st.body, env)
             if isinstance(st, ast.While):
                 body = Seq(body, self.expr(st.test, env))
             orelse = self.block(st.orelse, env) if st.orelse else ("Skip",)
+            # zero or more iterations: only what held before and still holds after is known
+            for k in set(before) | set(env.kinds):
+                if before.get(k) != env.kinds.get(k):
+                    env.kinds.pop(k, None)
             return Seq(head, Loop(Seq(tgt, body)), If(orelse, ("Skip",)))
         if isinstance(st, ast.Try):
             if st.finalbody:
@@ -763,8 +873,26 @@ class Lin:
             for k in list(env.kinds):
                 if sub.kinds.get(k) != env.kinds.get(k):
                     env.kinds.pop(k)
-            hs = [self.block(h.body, env) for h in st.handlers]
-            orelse = self.block(st.orelse, env) if st.orelse else ("Skip",)
+            hs, subs = [], [sub]
+            for h in st.handlers:
+                he = Env(env.cls, env.defcls, env.setter_key, env)
+                hs.append(self.block(h.body, he))
+                subs.append(he)
+            oe = Env(env.cls, env.defcls, env.setter_key, sub)
+            orelse = self.block(st.orelse, oe) if st.orelse else ("Skip",)
+            subs.append(oe)
+            # what is known about a local after the statement must hold on every path through it
+            for e in subs:
+                env.funcs.update(e.funcs)
+            names = set()
+            for e in subs:
+                names |= set(e.kinds)
+            for k in names | set(env.kinds):
+                vals = set(e.kinds.get(k) for e in subs)
+                if len(vals) == 1 and None not in vals:
+                    env.kinds[k] = vals.pop()
+                else:
+                    env.kinds.pop(k, None)
             # the body may be abandoned at any point by a caught (non-DOM) exception
             return Seq(If(body, ("Skip",)), If(*(hs + [orelse])))
         if isinstance(st, ast.With):
@@ -774,6 +902,16 @@ class Lin:
         if isinstance(st, ast.Assert):
             raise Refused("line %d: assert" % st.lineno)
         raise Refused("line %d: statement %s" % (st.lineno, type(st).__name__))
+
+    def guard_kind(self, test):
+        """`if ok:` / `if ok and x:` -> 'pos';  `if not ok:` -> 'neg'"""
+        if is_flag_target(test):
+            return "pos"
+        if isinstance(test, ast.BoolOp) and isinstance(test.op, ast.And) and any(is_flag_target(v) for v in test.values):
+            return "pos"
+        if isinstance(test, ast.UnaryOp) and isinstance(test.op, ast.Not) and is_flag_target(test.operand):
+            return "neg"
+        return None
 
     def fold_test(self, test, env):
         """three-valued evaluation of a test: True / False / None (unknown).
@@ -915,20 +1053,25 @@ def main():
             nm = "script_" + ident(ent["name"])
             cm = "(* %s  (%s, %s)%s *)" % (ent["name"], ent["module"], ent["setter"],
                                            "".join("\n   note: " + n for n in ent["notes"]))
-            body.append("%s\nDefinition %s : script :=\n  %s.\n" % (cm, nm, coq(ent["script"])))
+            body.append("%s\nDefinition l%s : lscript :=\n  %s.\nDefinition %s : script := erase l%s.\n"
+                        % (cm, nm, coq(ent["script"]), nm, nm))
             ok.append((ent, nm))
         else:
             refused.append(ent)
             body.append("(* REFUSED %s: %s *)\n" % (ent["name"], ent["refused"]))
     body.append("Definition all_scripts : list (string * script) :=\n  [ %s ].\n" % ";\n    ".join(
         '("%s", %s)' % (e["name"], nm) for e, nm in ok))
+    body.append("Definition all_lscripts : list (string * lscript) :=\n  [ %s ].\n" % ";\n    ".join(
+        '("%s", l%s)' % (e["name"], nm) for e, nm in ok))
+    body.append("Definition anchored_lscripts : list (string * lscript) :=\n  [ %s ].\n" % ";\n    ".join(
+        '("%s", l%s)' % (e["name"], nm) for e, nm in ok if e["group"] == "anchored"))
     body.append("Definition anchored_scripts : list (string * script) :=\n  [ %s ].\n" % ";\n    ".join(
         '("%s", %s)' % (e["name"], nm) for e, nm in ok if e["group"] == "anchored"))
     body.append("Definition refused_anchored : list string :=\n  [ %s ].\n" % "; ".join(
         '"%s"' % e["name"] for e in refused if e["group"] == "anchored"))
     body.append("Definition refused_extra : list string :=\n  [ %s ].\n" % "; ".join(
         '"%s"' % e["name"] for e in refused if e["group"] == "extra"))
-    emit("Scripts", "\n".join(body), requires="From CssV Require Import Base Atomic.")
+    emit("Scripts", "\n".join(body), requires="From CssV Require Import Base Atomic AtomicLenient.")
 
 
 if __name__ == "__main__":
